@@ -204,7 +204,7 @@ Plan generate(uint64_t seed, const std::string& focus) {
     if (focus == "C10" || focus == "C11") { boost_w(SK::FConnect, 4); boost_w(SK::FHandshake, 4); boost_w(SK::FResolve, 4); boost_w(SK::FByteCut, 2); }
     if (focus == "C12") { boost_w(SK::Wait, 6); boost_w(SK::FPingSilent, 6); boost_w(SK::Publish, 0.5); boost_w(SK::FRaceTimer, 3); }
     if (focus == "C13") { boost_w(SK::Subscribe, 4); boost_w(SK::FSessionPresent, 5); boost_w(SK::FByteCut, 2); boost_w(SK::Receive, 2); boost_w(SK::BrokerPublish, 2); }
-    if (focus == "C14") { boost_w(SK::Subscribe, 5); boost_w(SK::Unsubscribe, 5); boost_w(SK::Publish, 0.3); }
+    if (focus == "C14") { boost_w(SK::Subscribe, 5); boost_w(SK::Unsubscribe, 5); boost_w(SK::Publish, 0.3); boost_w(SK::FProto, 2); if (clean) add(SK::FProto, 6); }
     if (focus == "C03") { boost_w(SK::FProto, 2); boost_w(SK::FByteCut, 2); }
     double total = 0; for (auto& w : weights) total += w.w;
 
@@ -314,6 +314,14 @@ Plan generate(uint64_t seed, const std::string& focus) {
             if (s.d == (int)bk::PfAct::disconnect) s.s1 = std::to_string(r.pick<int>({0x80, 0x81, 0x8d, 0x8e, 0x97}));
             if (s.d == (int)bk::PfAct::cut_emit) s.s1 = std::to_string(r.pick<int>({1, 2, 3, 4}));
             if (s.d == (int)bk::PfAct::write_fault) s.s1 = std::to_string(r.pick<int>({0, 300, 999, 1000}));
+            // targeted malformed acknowledgements (wrong reason-code count, inadmissible reason code) in otherwise legitimate runs
+            if ((focus == "C14" || focus == "C01" || focus == "C20") && r.chance(0.5)) {
+                s.a = 1;
+                s.b = focus == "C14" ? (int)r.pick<int>({SUBACK, SUBACK, UNSUBACK}) : (int)r.pick<int>({PUBACK, PUBREC, PUBCOMP, SUBACK, UNSUBACK});
+                s.d = (int)bk::PfAct::hostile_reply;
+                s.s2 = std::to_string(r.pick<int>({12, 13, 13}));
+                s.s1.clear(); s.t = 0;
+            }
             break;
         }
         case SK::FWriteErr: s.a = (int)r.below(3); s.b = (int)r.pick<int>({0, 0, 200, 500, 900, 1000, 1000}); s.c = (int)r.below(4); break;
